@@ -282,6 +282,8 @@ package obfs4
 //@   requires conn != nil && conn.Conn != nil && sf != nil && 0 <= sf.closeDelay && sf.closeDelay < 60
 //@   modifies conn.Conn.*, blocked, now
 //@   ghost nw0 := conn.Conn.nwrites
+//@   ghostset conn.Conn.drained := true
+//@   ensures [C03:marks_the_discard_path] conn.Conn.drained
 //@   ensures [C03:never_writes] conn.Conn.nwrites == nw0
 //@   ensures [C03:always_closes] conn.Conn.closed
 //@   ensures [C03:fixed_drop_time] conn.Conn.rdeadline == old(conn.Conn.rdeadline) || conn.Conn.rdeadline == startTime + (sf.closeDelay * 1000000000 + 30000000000)
@@ -442,6 +444,7 @@ package obfs4
 //@   ensures [C03:connection_only_after_handshake] err == nil ==> typeis(c, "*obfs4.obfs4Conn") && payload(c) != nil && c.(*obfs4Conn).isServer && c.(*obfs4Conn).encoder != nil && c.(*obfs4Conn).decoder != nil && c.(*obfs4Conn).Conn == conn
 //@   ensures [C03:at_most_the_one_response_is_written] conn.nwrites <= nw0 + 1
 //@   ensures [C03:failed_handshake_is_closed] err != nil && conn.nreads > old(conn.nreads) ==> conn.closed
+//@   ensures [C03:every_failed_handshake_is_discarded_until_the_fixed_time] err != nil && conn.nreads > old(conn.nreads) ==> conn.drained
 //@   ensures [C10:handshake_timeout_disarmed] err == nil ==> conn.deadline == 0 && conn.rdeadline == 0
 
 //@ func newObfs4ClientConn(conn, args) (c, err)
